@@ -15,6 +15,7 @@
 package dmap
 
 import (
+	"errors"
 	"time"
 
 	"github.com/olric-data/olric/internal/cluster/partitions"
@@ -70,6 +71,23 @@ func (s *Service) putCommandHandler(conn redcon.Conn, cmd redcon.Command) {
 	conn.WriteString(protocol.StatusOK)
 }
 
+// checkEncodedEntry verifies that raw is the encoded form of an entry for key. The
+// storage engine stores the bytes as they are and interprets them when the key is
+// read: a payload with inconsistent lengths would make that read slice out of range.
+func (dm *DMap) checkEncodedEntry(key string, raw []byte) (err error) {
+	defer func() {
+		if r := recover(); r != nil {
+			err = errors.New("malformed entry")
+		}
+	}()
+	entry := dm.engine.NewEntry()
+	entry.Decode(raw)
+	if entry.Key() != key || len(entry.Encode()) != len(raw) {
+		return errors.New("malformed entry")
+	}
+	return nil
+}
+
 func (s *Service) putEntryCommandHandler(conn redcon.Conn, cmd redcon.Command) {
 	putEntryCmd, err := protocol.ParsePutEntryCommand(cmd)
 	if err != nil {
@@ -79,6 +97,11 @@ func (s *Service) putEntryCommandHandler(conn redcon.Conn, cmd redcon.Command) {
 
 	dm, err := s.getOrCreateDMap(putEntryCmd.DMap)
 	if err != nil {
+		protocol.WriteError(conn, err)
+		return
+	}
+
+	if err = dm.checkEncodedEntry(putEntryCmd.Key, putEntryCmd.Value); err != nil {
 		protocol.WriteError(conn, err)
 		return
 	}
